@@ -1137,6 +1137,8 @@ def _psd_stream(ctx, rs, drv, systems, worst):
         pool = damped if (damped and j % 8 == 0) else cands
         sysd = pool[int(rs.integers(0, len(pool)))]
         solver = "su" if (sysd["pre_eig"] or rs.random() < 0.6) else "fd"
+        if pool is damped:
+            solver = "su"  # the required branch psd:rb-damped is about SolveUnc (FreqDirect comes through the random picks)
         spec = _psd_case(rs, sysd, solver)
         ts, res = _run_psd(spec)
         # eigen data is only available after an fsolve call (solvepsd made one)
